@@ -2,6 +2,7 @@
 import json
 from bodies import Tokens
 from storefam import gen_many, run_templates, replay_store
+from httpfam import run_http_templates
 
 AUDIT = "Audit/C09.lean"
 MODULE = "Xandikos.Theorems.C09"
@@ -16,6 +17,7 @@ def run(chk):
     n = 10 if chk.tier == "quick" else 120
     tmpls = gen_many(chk, toks, n, 25 if chk.tier == "quick" else 40, PROFILE)
     run_templates(chk, tmpls, toks, PREFIXES, kinds=["bare-mem", "bare-disk", "tree"], git_every_step=(chk.tier == "thorough"))
+    run_http_templates(chk, toks, 4 if chk.tier == "quick" else 50, 20, "git", PREFIXES, git_checks=True)
 
 
 def replay(chk, path):
